@@ -142,7 +142,12 @@ class CGraph:
 
         for nf,f in enumerate(self.dependentFunctionList):
             try:
-                f.xbar[...] = xbar_list[nf]
+                if isinstance(f.xbar, algopy.UTPM):
+                    # added, not assigned: the adjoint of a dependent that is a view of another
+                    # dependent shares memory with the seed stored before (all adjoints are zero here)
+                    f.xbar[...] = f.xbar + xbar_list[nf]
+                else:
+                    f.xbar[...] = xbar_list[nf]
             except Exception as e:
                 err_str  = 'tried to initialize the bar value of  cg.dependentFunctionList[%d], but some error occured:\n'%nf
                 err_str += 'the assignment:  f.xbar[...] = xbar_list[%d]\n'%(nf)
